@@ -261,7 +261,7 @@ def run_symvec_extreme(c):
 
 
 def run_asutpm(c):
-    for cshape in [(2,), (3, 1), (2, 2)]:
+    for cshape in [(2,), (3, 1), (2, 2), (2, 3, 4), (3, 2, 1, 2)]:
         for eshape in [(), (2,), (2, 2)]:
             for cplx in (False, True):
                 for (D, P) in DPS[1:3]:
@@ -371,6 +371,18 @@ def run_coeffop(c):
                 y = x.coeff_op(sl, shp)
                 if not same(y.data, x.data[sl].reshape(shp)):
                     c.fail('coeff_op', 'value', {'D': D, 'P': P})
+                # its pullback is the transpose in the library's pairing of adjoint and direction coefficients,
+                # sum_c <xbar_(D-1-c), x'_c> = sum_k <ybar_(Dy-1-k), coeff_op(x')_k>, for a fresh x' and seed
+                xp = UTPM(vals((D, P, 2, 3), 11))
+                yp = xp.coeff_op(sl, shp)
+                ybar = UTPM(vals(yp.data.shape, 13))
+                xbar = UTPM.pb_coeff_op(UTPM(ybar.data.copy()), x, sl, shp)
+                lhs = sum(float(np.sum(xbar.data[D - 1 - k] * xp.data[k])) for k in range(D))
+                Dy = yp.data.shape[0]
+                rhs = sum(float(np.sum(ybar.data[Dy - 1 - k] * yp.data[k])) for k in range(Dy))
+                c.ev(True)
+                if abs(lhs - rhs) > 1e-12 * (1 + abs(rhs)):
+                    c.fail('pb_coeff_op', 'not the transpose of coeff_op', {'D': D, 'P': P, 'slice': str(sl), 'lhs': lhs, 'rhs': rhs})
             except Exception as e:
                 c.fail('coeff_op', 'raises', {'error': str(e)[:200]})
 
